@@ -16,7 +16,7 @@ from vlib import log
 
 K0 = dict(election_tick=3, heartbeat_tick=1, max_size_per_msg=-1, max_inflight=2, check_quorum=False, pre_vote=False,
           skip_bcast_commit=False, batch_append=False, priority=0, max_uncommitted_size=-1,
-          max_committed_size_per_ready=-1, max_apply_unpersisted_log_limit=0, disable_proposal_forwarding=False)
+          max_committed_size_per_ready=-1, max_apply_unpersisted_log_limit=0, disable_proposal_forwarding=False, lease_read=False)
 
 
 def cluster(ids, voters, learners, **over):
